@@ -250,4 +250,14 @@ theorem cache_holds_only_connected_transactions (cfg : Cfg) (height : Nat) (bloc
       cases ha
   exact (ginv_runG cfg hist start hinv).just.cache l d h
 
+/-- **boot_lookups_cover_the_most_recent_blocks**: whatever the database, height and block list
+(oldest first), the model's start-up builds the watcher's look-up from the six most recent blocks
+and the responder's from all of them. -/
+theorem boot_lookups_cover_the_most_recent_blocks (db : Db) (h : Nat) (blocks : List (Nat × List TxId)) :
+    (boot db h blocks).mem.cache =
+      TxIndex.new ((blocks.drop (blocks.length - 6)).map fun b => (b.1, b.2.map fun t => (locOf t, t))) h ∧
+    (boot db h blocks).mem.txIndex =
+      TxIndex.new (blocks.map fun b => (b.1, b.2.map fun t => (t, b.1))) h :=
+  ⟨rfl, rfl⟩
+
 end Teos.C01
